@@ -40,7 +40,7 @@ def plan(tier, seed):
 
 
 def mandatory_bins(tier):
-    return ["step_pairs", "len0", "len1", "len2", "default_start", "split", "type_bytes", "type_bytearray", "type_memoryview", "type_list", "type_iterator", "type_generator", "catalogue_check_value", "long_input", "first_calls_of_the_process_from_concurrent_threads"]
+    return ["step_pairs", "len0", "len1", "len2", "default_start", "split", "type_bytes", "type_bytearray", "type_memoryview", "type_list", "type_iterator", "type_generator", "catalogue_check_value", "long_input", "first_calls_of_the_process_from_concurrent_threads", "same_mutable_object_changed_in_place_and_checksummed_again", "type_memoryview_reversed", "type_memoryview_strided"]
 
 
 def finish(agg, tier):
@@ -204,6 +204,24 @@ def run_shard(spec, ctx):
             else:
                 arg, tn = list(data), "list"
             got = f(arg, start)
+            if t in (1, 3) and ln:
+                # the SAME mutable object changed in place and checksummed again at once (same start value)
+                arg[rng.randrange(ln)] ^= 1 << rng.randrange(8)
+                again = f(arg, start)
+                ctx.bin("same_mutable_object_changed_in_place_and_checksummed_again")
+                if again != ref.crc16(bytes(arg), start):
+                    ctx.violation("string_mismatch:same_object_after_in_place_change", {"len": ln, "type": tn, "start": start}, {"kind": "string", "data": data.hex(), "start": start, "type": tn})
+            if i % 16 == 2 and ln >= 2:
+                # non-contiguous buffer views (reversed, strided)
+                for vname, view, content in (("reversed", memoryview(data)[::-1], data[::-1]), ("strided", memoryview(data)[::2], data[::2])):
+                    ctx.bin("type_memoryview_" + vname)
+                    try:
+                        gv = f(view, start)
+                    except Exception as e:
+                        ctx.violation("checksum_of_non_contiguous_view_raises", {"view": vname, "exc": repr(e)[:120]}, {"kind": "string", "data": content.hex(), "start": start, "type": "memoryview_" + vname})
+                        continue
+                    if gv != ref.crc16(content, start):
+                        ctx.violation("string_mismatch", {"len": len(content), "start": start, "type": "memoryview_" + vname}, {"kind": "string", "data": content.hex(), "start": start})
             mid = f(data[:cut], start)
             got2 = f(data[cut:], mid)
             ctx.ev()
